@@ -42,20 +42,22 @@ ASSUMPTIONS = [
     "window size is set through the controller's _window_size attribute and "
     "through SCPConnection.read/write's window_size parameter",
 ]
-FLOORS = {"op_checked": 2500, "read_bytes_compared": 500,
+FLOORS = {"real_socket_op": 150, "op_checked": 2500, "read_bytes_compared": 500,
           "write_conservation": 800, "multi_buffer_op": 300,
           "faulty_op": 200, "struct_field": 150, "link_op": 100}
 ANCHORS = [("rig.machine_control.machine_controller", "MachineController.fill",
             {"unaligned_fill_as_write": "self.write(address, data, x, y, p)",
              "aligned_fill": "SCPCommands.fill, address, data, size)"})]
 SHARDS = {"quick": 16, "thorough": 64}
-CLASSES = ["plain", "buffers", "faulty", "structs", "links", "windows"]
+CLASSES = ["plain", "buffers", "faulty", "structs", "links", "windows",
+           "real_udp"]
 BUFS = [16, 120, 128, 242, 243, 248, 255, 256, 499, 504, 512]
 
 
 def plan(tier):
     n = 600 if tier == "quick" else 30000
-    return [(c, n) for c in CLASSES]
+    # real loopback sockets cost wall-clock time per injected loss
+    return [(c, n if c != "real_udp" else n // 10) for c in CLASSES]
 
 
 def rdata(rng, n):
@@ -69,13 +71,20 @@ def gen(cls, idx, rng, tier):
     window = rng.randint(1, 8) if cls in ("windows", "faulty") or \
         rng.random() < .4 else 1
     faults = None
+    if cls == "real_udp":
+        window = rng.randint(1, 8)
+        faults = dict(real=True, seed=rng.randrange(1 << 30),
+                      lost=rng.choice([0, .01, .03]),
+                      reply_lost=rng.choice([0, .01, .03]),
+                      dup=rng.choice([0, .05]), late=rng.choice([0, 0, .01]))
     if cls == "faulty" or (cls == "windows" and rng.random() < .5):
         faults = dict(p=rng.choice([.05, .15, .3]),
                       seed=rng.randrange(1 << 30))
     ops = []
     chips = [(x, y) for x in range(w) for y in range(h)]
     base = rng.choice([0x60000000, 0x70000000, 0x60100000])
-    for _ in range(rng.randint(6, 20)):
+    for _ in range(rng.randint(6, 20) if cls != "real_udp" else
+                   rng.randint(4, 9)):
         x, y = rng.choice(chips)
         p = rng.choice([0, 0, 1, 5, 17])
         addr = base + rng.randrange(0, 3000) * rng.choice([1, 1, 4])
@@ -118,7 +127,14 @@ def gen(cls, idx, rng, tier):
         elif kind == "lread":
             ops.append((kind, x, y, rng.randrange(6), addr & ~3,
                         (min(ln, 3 * b) + 3) & ~3))
+    if cls == "structs":
+        # the per-core blocks may move (a chip is re-initialised)
+        for _ in range(rng.randint(0, 2)):
+            x, y = rng.choice(chips)
+            ops.insert(rng.randrange(len(ops) + 1),
+                       ("vbase", x, y, M.VCPU_BASE + 0x1000 * rng.randrange(8)))
     return dict(w=w, h=h, buf=b, window=window, faults=faults, ops=ops,
+                vbases=cls == "structs" and rng.random() < .7,
                 seed_mem=rng.randrange(1 << 30))
 
 
@@ -146,10 +162,11 @@ def fault_plan(f):
     return plan
 
 
-def field_layout(struct_name, field, p=0):
+def field_layout(struct_name, field, p=0, vbase=None):
     """(address, struct format, element count) from the harness's parser"""
     ch, off, _, count = M.structs()[struct_name]["fields"][field]
-    base = M.SV_BASE if struct_name == "sv" else M.VCPU_BASE + 128 * p
+    base = M.SV_BASE if struct_name == "sv" else \
+        (M.VCPU_BASE if vbase is None else vbase) + 128 * p
     return base + off, ch, count
 
 
@@ -164,8 +181,28 @@ def run(case, ctx):
                 a = base + rng.randrange(0, 3000 * 4)
                 c.wr(a, bytes(rng.getrandbits(8)
                               for _ in range(rng.randint(1, 200))), log=False)
-    plan = fault_plan(case["faults"]) if case["faults"] else None
-    r = M.Rig(m, plan=plan, timeout=0.5, n_tries=5)
+    if case.get("vbases"):
+        m.diversify(case["seed_mem"])
+    real = bool(case["faults"] and case["faults"].get("real"))
+    if real:
+        from ..sim import realnet
+        plan = True
+        r = realnet.RealRig(m, faults=case["faults"],
+                            seed=case["faults"]["seed"])
+        ctx.hit("real_socket_case")
+    else:
+        plan = fault_plan(case["faults"]) if case["faults"] else None
+        r = M.Rig(m, plan=plan, timeout=0.5, n_tries=5)
+    try:
+        return run_ops(case, ctx, m, r, plan, real)
+    finally:
+        if real:
+            r.close()
+            if r.error is not None:
+                raise RuntimeError("machine model failed: %r" % (r.error,))
+
+
+def run_ops(case, ctx, m, r, plan, real):
     mc = r.mc
     sc = r.sc
     mc._window_size = case["window"]
@@ -180,6 +217,14 @@ def run(case, ctx):
     for op in case["ops"]:
         kind = op[0]
         trace.append(op if len(repr(op)) < 200 else (kind,) + op[1:5])
+        if kind == "vbase":
+            _, x, y, nb = op
+            c = m.chips[(x, y)]
+            c.vcpu_base = nb
+            c.poke(M.sv_field("vcpu_base")[0], "I", nb)
+            m.sync_vcpu(c)
+            ctx.hit("vcpu_blocks_moved")
+            continue
         for c in m.chips.values():
             c.writes = []
         del m.protocol_errors[:]
@@ -230,7 +275,8 @@ def run(case, ctx):
                 call = lambda: mc.read_struct_field("sv", f, x, y, p)
         elif kind in ("wvf", "rvf"):
             _, f, x, y, p, seed = op
-            addr, ch, count = field_layout("vcpu", f, p)
+            addr, ch, count = field_layout("vcpu", f, p,
+                                           m.chips[(x, y)].vcpu_base)
             fmt = "<" + ch
             n = struct.calcsize(fmt)
             ctx.hit("struct_field")
@@ -288,6 +334,8 @@ def run(case, ctx):
         ctx.hit("op_checked")
         if plan is not None and r.net.n_tx > tx0:
             ctx.hit("faulty_op")
+        if real:
+            ctx.hit("real_socket_op")
         where = dict(op=trace[-1], buffer=b, window=case["window"],
                      faults=bool(plan))
         check(not m.protocol_errors, "malformed-command",
